@@ -6,11 +6,22 @@ K1_HARNESSES = ['k1_wschar', 'k1_non_ascii', 'k1_non_eol', 'k1_basic_unescaped',
                 'k1_dt_digit']
 
 UNITS = {
+    # ---------------------------------------------------------------- Verus (unbounded)
     'V1': {
         'engine': 'verus', 'complete': True,
         'title': 'toml_write/src/string.rs: metrics, style builders, write_toml_value (unbounded)',
         'witness': ['witness-v1', '4'], 'replay': 'replay-v1',
     },
+    'V3': {
+        'engine': 'verus', 'complete': True,
+        'title': 'toml_edit parser RecursionCheck: LIMIT small, check_depth/enter/exit contracts (unbounded)',
+    },
+    'V4': {
+        'engine': 'verus', 'complete': True,
+        'title': 'calendar rule (both copies), standalone time/offset range checks: statement slices (unbounded)',
+        'witness': ['witness-k3'], 'replay': 'replay-k3',
+    },
+    # ---------------------------------------------------------------- Kani, complete (full domain)
     'K1': {
         'engine': 'kani', 'crate': 'toml_edit', 'harnesses': K1_HARNESSES, 'complete': True,
         'title': 'parser byte-class tables == ABNF classes, all 256 bytes (loop-free, complete)',
@@ -23,14 +34,55 @@ UNITS = {
         'title': 'float overflow guard (closure extracted from fn float): all f64 bit patterns',
         'witness': ['witness-k7'], 'replay': 'replay-k7',
     },
+    'K6e': {
+        'engine': 'kani', 'crate': 'toml_edit',
+        'harnesses': ['k6_edit_serialize_u64', 'k6_edit_serialize_i64', 'k6_edit_serialize_narrow',
+                      'k6_edit_serialize_128'],
+        'complete': True, 'timeout': 600,
+        'title': 'toml_edit::ser::ValueSerializer integer conversions: every u64/i64/u32/../u128/i128 value',
+    },
+    'K6t': {
+        'engine': 'kani', 'crate': 'toml',
+        'harnesses': ['k6_toml_serialize_u64', 'k6_toml_visit_u64', 'k6_toml_narrow'],
+        'complete': True, 'timeout': 600,
+        'title': 'toml::Value serializer and visitor integer conversions: every u64 value',
+    },
+    'K11': {
+        'engine': 'kani', 'crate': 'toml_edit', 'harnesses': ['k11_span_bridge'], 'complete': True,
+        'timeout': 600,
+        'title': 'serde span bridge: SpannedDeserializer -> Spanned<i64>, every (start, end, value)',
+    },
+    'K12': {
+        'engine': 'kani', 'crate': 'toml_edit',
+        'harnesses': ['k12_check_depth', 'k12_enter_exit', 'k12_check_recursion'],
+        'complete': True, 'timeout': 300,
+        'title': 'RecursionCheck in place: limit enforced exactly, check_recursion balanced, every counter value',
+    },
+    'K8': {
+        'engine': 'kani', 'crate': 'toml_edit',
+        'harnesses': ['k8_post_n1', 'k8_post_n2', 'k8_post_n3', 'k8_post_n4'],
+        'complete': False, 'bound': 'every valid UTF-8 input of 1..4 bytes x every index', 'timeout': 1500,
+        'title': 'translate_position: in-place kani::requires/ensures contract == O-pos line_col (bounded input length)',
+        'witness': ['witness-k8'], 'replay': 'replay-k8',
+    },
+    'K3q': {
+        'engine': 'kani', 'crate': 'toml_datetime', 'harnesses': ['k3_short', 'k3_time8'], 'complete': True,
+        'timeout': 900,
+        'title': 'Datetime::from_str == O-dt on every string of <= 3 bytes and every 8-byte string (complete per width)',
+        'witness': ['witness-k3'], 'replay': 'replay-k3',
+    },
 }
 
 # property -> tier -> unit list
 PLAN = {
     'C10': {'quick': ['V1', 'K1'], 'thorough': ['V1', 'K1']},
-    'C04': {'quick': ['V1', 'K1'], 'thorough': ['V1', 'K1']},
-    'C11': {'quick': ['K7'], 'thorough': ['K7']},
-    'C01': {'quick': ['K1', 'K7'], 'thorough': ['K1', 'K7']},
+    'C04': {'quick': ['V1', 'V3', 'V4', 'K1'], 'thorough': ['V1', 'V3', 'V4', 'K1', 'K12']},
+    'C11': {'quick': ['K7', 'K6e', 'K6t'], 'thorough': ['K7', 'K6e', 'K6t']},
+    'C01': {'quick': ['K1', 'K7', 'V4'], 'thorough': ['K1', 'K7', 'V4']},
+    'C05': {'quick': ['V3', 'K12'], 'thorough': ['V3', 'K12']},
+    'C14': {'quick': ['K11'], 'thorough': ['K11']},
+    'C15': {'quick': ['K8'], 'thorough': ['K8']},
+    'C12': {'quick': ['V4', 'K3q'], 'thorough': ['V4', 'K3q']},
 }
 
 LEVEL = 'proof'
